@@ -71,6 +71,8 @@ class Faulty:
         self._chk("seek"); return self.f.seek(o, w)
 
     def read(self, n=-1):
+        if n == 0:
+            return self.f.read(0)       # verify_fileobj's usability probe (a failing probe is a documented ValueError)
         self._chk("read")
         d = self.f.read(n)
         self.dataread += len(d)
@@ -80,6 +82,8 @@ class Faulty:
         return d
 
     def write(self, d):
+        if len(d) == 0:
+            return self.f.write(d)      # verify_fileobj's usability probe
         self._chk("write"); return self.f.write(d)
 
     def truncate(self, *a):
